@@ -550,6 +550,13 @@ op_processed(const Plan& p, const Op& op)
         }
       if (force_tofsens)
         obj.force_tofsens(true);
+      // end planes of segment 0 switched off (then a multiplicative term exists even without normalisation); the end-plane
+      // viewgrams still reach the projectors (as zeros), so the triples are the same
+      if (op.arg(9) % 3 == 0)
+        {
+          obj.set_zero_seg0_end_planes(true);
+          sim::probe("processed_with_zero_end_planes");
+        }
       const bool tofsens = tof && (force_tofsens || norm_kind == 1);
       const int max_seg = (int)(op.arg(6) % (pdi->get_max_segment_num() + 2)) - 1; // -1: all
       if (max_seg >= 0)
